@@ -235,15 +235,29 @@ def type_refcount_order(F):
                 self.bad = []
 
             def on_stmt(self, s_, st):
-                if st is not None and s_["k"] == "RangeFor" and show(s_["range"]) == "blockTypeIndices" and \
-                        any(x["k"] == "Unary" and x["op"] == "++" and is_node(x["e"]) and x["e"]["k"] == "Ref" for x in walk(s_["body"])) and \
-                        not any(x["k"] == "Unary" and x["op"] == "--" for x in walk(s_["body"])):
-                    return st | {("D", "counted")}
+                if st is None:
+                    return st
+                body = s_.get("body") if s_["k"] in ("RangeFor", "For") else None
+                over_table = (s_["k"] == "RangeFor" and show(s_["range"]) == "blockTypeIndices") or \
+                             (s_["k"] == "For" and any(x["k"] == "Subscript" and pairing.member_root(x["base"], HDR)[0] == "blockTypeIndices"
+                                                       for x in walk(body or {})))
+                if over_table and is_node(body):
+                    ind = {v["id"] for v in (s_.get("init") or {}).get("vars", [])} if s_["k"] == "For" and is_node(s_.get("init")) else set()
+                    incs = [x for x in walk(body) if x["k"] in ("Unary", "Assign") and x.get("op") in ("++", "+=") and
+                            is_node(x.get("e") or x.get("l")) and (x.get("e") or x.get("l"))["k"] == "Ref" and (x.get("e") or x.get("l")).get("id") not in ind]
+                    writes = [x for x in walk(body) if (x["k"] == "Assign" and pairing.member_root(x["l"], HDR)[0] == "blockTypeIndices") or
+                              (x["k"] == "Unary" and x["op"] == "--")]
+                    if incs and not writes:
+                        return st | {("D", "counted")}
                 return st
 
             def on_node(self, n, st):
                 if st is None or self.muted:
                     return st
+                if n["k"] == "Call" and n.get("short") in ("count", "count_if") and any(
+                        is_node(a) and a["k"] == "Call" and a.get("short") in ("begin", "cbegin") and is_node(a.get("recv")) and
+                        pairing.member_root(a["recv"], HDR)[0] == "blockTypeIndices" for a in n.get("args", [])):
+                    return st | {("D", "counted")}  # std::count / std::count_if over the whole table
                 tgt = None
                 if n["k"] == "Assign":
                     tgt = n["l"]
